@@ -261,6 +261,41 @@ func (sc *Scenario) HistoricalEncode(users []string) *Scenario {
 	return out
 }
 
+// ScribblePowerLevels takes the parsed content of every power-levels event through the public accessor and overwrites it
+// (every level, every map entry, extra entries), as a caller may who drafts the next power-levels event from the current
+// one. What PowerLevels() hands out is the caller's; nothing the library decides afterwards may depend on it.
+func ScribblePowerLevels(evs []gmsl.PDU) {
+	for _, e := range evs {
+		if e == nil || e.Type() != "m.room.power_levels" {
+			continue
+		}
+		func() {
+			defer func() { _ = recover() }()
+			pl, err := e.PowerLevels()
+			if err != nil || pl == nil {
+				return
+			}
+			// towards "everything is allowed": every user at 2^40, every threshold at -7 (a library that kept reading the
+			// scribbled copy would accept what the rules refuse, which the callers' oracles then report)
+			for k := range pl.Users {
+				pl.Users[k] = 1 << 40
+			}
+			if pl.Users != nil {
+				pl.Users["@scribble:a.org"] = 1 << 40
+			}
+			for _, m := range []map[string]int64{pl.Events, pl.Notifications} {
+				for k := range m {
+					m[k] = -7
+				}
+				if m != nil {
+					m["m.room.name"], m["m.room.topic"], m["room"] = -7, -7, -7
+				}
+			}
+			pl.Ban, pl.Kick, pl.Invite, pl.Redact, pl.UsersDefault, pl.EventsDefault, pl.StateDefault = -7, -7, -7, -7, 1<<40, -7, -7
+		}()
+	}
+}
+
 // RunWith is Run with the caller's sender-ID resolution.
 func (sc *Scenario) RunWith(q spec.UserIDForSender) (verdict error, buildErr error) {
 	st, err := sc.StatePDUs()
@@ -275,6 +310,8 @@ func (sc *Scenario) RunWith(q spec.UserIDForSender) (verdict error, buildErr err
 	if err != nil {
 		return nil, err
 	}
+	ScribblePowerLevels(st)
+	ScribblePowerLevels([]gmsl.PDU{ev})
 	return gmsl.Allowed(ev, prov, q), nil
 }
 
@@ -292,5 +329,7 @@ func (sc *Scenario) Run() (verdict error, buildErr error) {
 	if err != nil {
 		return nil, err
 	}
+	ScribblePowerLevels(st)
+	ScribblePowerLevels([]gmsl.PDU{ev})
 	return gmsl.Allowed(ev, prov, UID), nil
 }
